@@ -302,10 +302,22 @@ func abs64(v int64) int64 {
 	return v
 }
 
-func scC10(r *Run) {
+func scC10(r *Run) { runC10(r, false) }
+
+// scC10Race: the same under the race detector, biased to what makes the client's goroutines share state: several
+// playlists (renditions wait for the leading stream's time converter and read its date-time anchor) and
+// PROGRAM-DATE-TIME in every segment.
+func scC10Race(r *Run) { runC10(r, true) }
+
+func runC10(r *Run, raceBias bool) {
 	T := r.T
 	g := &originGen{containers: []string{"ts", "fmp4", "fmp4"}, modes: []string{"vod", "live", "event"}, minSegs: 3, maxSegs: 10,
 		renditions: true, byteRanges: true, bframes: true, multiFrag: true, bigBases: true, segDurMs: []int{400, 1000, 2000, 4000}, noPDTChance: 3}
+	if raceBias {
+		g.noPDTChance = 0
+		g.forceRenditions = true
+		g.segDurMs = []int{400, 1000}
+	}
 	o := genStubOrigin(r, g)
 	for _, st := range o.streams {
 		if st.mode != "vod" {
@@ -359,11 +371,11 @@ func scC10(r *Run) {
 }
 
 func init() {
-	register(&PropDef{ID: "C10", Quick: 6600, Thorough: 330000, Profiles: []ProfileDef{
+	register(&PropDef{ID: "C10", Quick: 7200, Thorough: 360000, Profiles: []ProfileDef{
 		{Name: "stub", Share: 10, Sc: scC10},
 		// the same scenario under the race detector: the client's goroutines share the time converter, the track
 		// table and the queues
-		{Name: "race-stub", Share: 1, Sc: scC10, Race: true},
+		{Name: "race-stub", Share: 2, Sc: scC10Race, Race: true},
 	}})
 }
 
